@@ -351,8 +351,14 @@ def expr(ctx: Ctx, e, want=None) -> str:
         if len(e.generators) != 1:
             raise Untranslatable("multi-generator comprehension")
         g = e.generators[0]
-        out = expr(ctx, g.iter)
-        pat = pattern(g.target)
+        if isinstance(g.iter, ast.Call) and norm(seg(ctx, g.iter.func)) == "enumerate" and len(g.iter.args) == 1 \
+                and isinstance(g.target, ast.Tuple) and len(g.target.elts) == 2 and all(isinstance(x, ast.Name) for x in g.target.elts):
+            # enumerate(xs) with target (i, x): zipIdx yields (x, i)
+            out = f"(List.zipIdx {expr(ctx, g.iter.args[0])})"
+            pat = f"({li(g.target.elts[1].id)}, {li(g.target.elts[0].id)})"
+        else:
+            out = expr(ctx, g.iter)
+            pat = pattern(g.target)
         for cond in g.ifs:
             out = f"(List.filter (fun {pat} => {expr(ctx, cond)}) {out})"
         inner = want[5:].strip("()") if want and want.startswith("List ") else None
@@ -416,6 +422,8 @@ def call(ctx, e, want):
         raise Untranslatable(f"keyword arguments in call {fn}")
     if fn == "zip" and len(args) == 2:
         return f"(List.zip {expr(ctx, args[0])} {expr(ctx, args[1])})"
+    if fn == "range" and len(args) == 1:
+        return f"(List.range {expr(ctx, args[0], 'Nat')})"
     if fn == "len" and len(args) == 1:
         w = want if want in NUMERIC else (ctx.default_num or "Nat")
         inner = f"(({expr(ctx, args[0])}).length : Nat)"
@@ -485,7 +493,7 @@ def call(ctx, e, want):
     raise Untranslatable(f"call {fn}")
 
 
-MUTATORS = ("append", "remove", "add", "extend")
+MUTATORS = ("append", "remove", "add", "extend", "pop", "insert")
 
 
 def setdefault_append(st):
@@ -827,11 +835,17 @@ def mutation(ctx, st, name):
         return f"let {n} := alistSet {n} {expr(ctx, tgt.slice, kt)} {expr(ctx, st.value, vt)}"
     call = st.value
     attr = call.func.attr
-    if len(call.args) != 1:
-        raise Untranslatable(f"{attr} with {len(call.args)} arguments")
     inner = ty[5:].strip() if ty.startswith("List ") else None
     if inner and inner.startswith("(") and inner.endswith(")"):
         inner = inner[1:-1]
+    if attr == "insert" and len(call.args) == 2 and inner:
+        # list.insert(i, v) for 0 <= i <= len (Python clamps a larger i to the end, as pyInsertIdx does)
+        return f"let {n} := pyInsertIdx {n} {expr(ctx, call.args[0], 'Nat')} {expr(ctx, call.args[1], inner)}"
+    if len(call.args) != 1:
+        raise Untranslatable(f"{attr} with {len(call.args)} arguments")
+    if attr == "pop" and inner:
+        # statement form only (the popped value is discarded); an index out of range would raise in Python
+        return f"let {n} := List.eraseIdx {n} {expr(ctx, call.args[0], 'Nat')}"
     if attr == "append":
         return f"let {n} := {n} ++ [{expr(ctx, call.args[0], inner)}]"
     if attr == "extend":
